@@ -1134,7 +1134,9 @@ func (w *Worktree) copyObjectToWorktree(cfg *config.Config, object *object.File,
 		}
 		defer ioutil.CheckClose(src, &err)
 
-		if !stat.IsBinary() {
+		// Like git (convert.c will_convert_lf_to_crlf): content that
+		// already has CR or CRLF line endings is left untouched.
+		if !stat.IsBinary() && stat.CRLF == 0 {
 			dst = convert.NewCRLFWriter(dst)
 		}
 	}
